@@ -178,6 +178,28 @@ def run(ctx, res):
                     if op_["k"] in ("copy", "move") and fbody["locals"][op_["p"]["l"]].get("ty") is not None and (ip.int_info(fbody["locals"][op_["p"]["l"]]["ty"]) or (0,))[0] == 64:
                         if any(r_[0] == "place" and r_[1].endswith(".state_sum") for r_ in fg.roots(op_)):
                             is_sum = True
+        # any 64-bit accumulator that grows by a 16-bit (or narrower) amount per iteration - whatever it is called - needs more than 2^47
+        # iterations to overflow: the same argument as for the state total
+        if not is_sum:
+            for bl in fbody["blocks"]:
+                tm = bl["term"]
+                if tm["k"] == "assert" and tm["ln"] == o.info.get("line") and tm["msg"]["kind"] == "Overflow" and "Add" in str(tm["msg"].get("op") or o.info.get("op") or "Add"):
+                    ops = tm["msg"]["ops"] or []
+                    wide = [op_ for op_ in ops if op_["k"] in ("copy", "move") and (ip.int_info(fbody["locals"][op_["p"]["l"]]["ty"]) or (0,))[0] == 64]
+                    small = False
+                    dfs = fg.defs()
+                    for op_ in ops:
+                        if op_["k"] in ("copy", "move") and not op_["p"]["p"]:
+                            for blk_, kd_, payload_ in dfs.get(op_["p"]["l"], []):
+                                if kd_ == "st" and payload_["r"]["k"] == "cast" and payload_["r"].get("ck") == "IntToInt":
+                                    src_ = payload_["r"]["o"]
+                                    if src_["k"] in ("copy", "move"):
+                                        sty_ = fbody["locals"][src_["p"]["l"]]["ty"] if not src_["p"]["p"] else src_["p"].get("ty")
+                                        ii_ = ip.int_info(sty_) if sty_ is not None else None
+                                        if ii_ and ii_[0] <= 16:
+                                            small = True
+                    if len(wide) == 2 and small:
+                        is_sum = True
         if is_sum:
             res.ob(True)
             res.inventory.setdefault("allowlisted_sites", []).append("run: state_sum overflow (line %s)" % o.info.get("line"))
